@@ -86,7 +86,10 @@ class cpu_limit:
 
     def __enter__(self):
         self.old = signal.signal(signal.SIGVTALRM, self._handler)
-        signal.setitimer(signal.ITIMER_VIRTUAL, self.seconds)
+        # repeating: an exception raised by the handler while the interpreter
+        # is inside a trace / gc callback is discarded ("Exception ignored
+        # in"), the next expiry raises it again
+        signal.setitimer(signal.ITIMER_VIRTUAL, self.seconds, 0.25)
         return self
 
     def __exit__(self, *exc):
